@@ -75,14 +75,6 @@ let rec sub n0 m =
             | O -> n0
             | S l -> sub k l)
 
-<<<<<<< HEAD
-(** val eqb : bool -> bool -> bool **)
-
-let eqb b1 b2 =
-  if b1 then b2 else if b2 then false else true
-
-=======
->>>>>>> main
 module Nat =
  struct
   (** val eqb : nat -> nat -> bool **)
@@ -774,16 +766,6 @@ module Z =
     | Lt -> true
     | _ -> false
 
-<<<<<<< HEAD
-  (** val gtb : z -> z -> bool **)
-
-  let gtb x y =
-    match compare x y with
-    | Gt -> true
-    | _ -> false
-
-=======
->>>>>>> main
   (** val eqb : z -> z -> bool **)
 
   let eqb x y =
@@ -798,23 +780,6 @@ module Z =
                  | Zneg q0 -> Coq_Pos.eqb p q0
                  | _ -> false)
 
-<<<<<<< HEAD
-  (** val max : z -> z -> z **)
-
-  let max n0 m =
-    match compare n0 m with
-    | Lt -> m
-    | _ -> n0
-
-  (** val min : z -> z -> z **)
-
-  let min n0 m =
-    match compare n0 m with
-    | Gt -> m
-    | _ -> n0
-
-=======
->>>>>>> main
   (** val abs : z -> z **)
 
   let abs = function
@@ -892,37 +857,6 @@ module Z =
   let div a b =
     let (q0, _) = div_eucl a b in q0
 
-<<<<<<< HEAD
-  (** val quotrem : z -> z -> z * z **)
-
-  let quotrem a b =
-    match a with
-    | Z0 -> (Z0, Z0)
-    | Zpos a0 ->
-      (match b with
-       | Z0 -> (Z0, a)
-       | Zpos b0 ->
-         let (q0, r0) = N.pos_div_eucl a0 (Npos b0) in ((of_N q0), (of_N r0))
-       | Zneg b0 ->
-         let (q0, r0) = N.pos_div_eucl a0 (Npos b0) in
-         ((opp (of_N q0)), (of_N r0)))
-    | Zneg a0 ->
-      (match b with
-       | Z0 -> (Z0, a)
-       | Zpos b0 ->
-         let (q0, r0) = N.pos_div_eucl a0 (Npos b0) in
-         ((opp (of_N q0)), (opp (of_N r0)))
-       | Zneg b0 ->
-         let (q0, r0) = N.pos_div_eucl a0 (Npos b0) in
-         ((of_N q0), (opp (of_N r0))))
-
-  (** val quot : z -> z -> z **)
-
-  let quot a b =
-    fst (quotrem a b)
-
-=======
->>>>>>> main
   (** val even : z -> bool **)
 
   let even = function
@@ -1041,14 +975,6 @@ let fPi =
 let fW =
   Npos (XO XH)
 
-<<<<<<< HEAD
-(** val fErr : n **)
-
-let fErr =
-  Npos (XI (XO XH))
-
-=======
->>>>>>> main
 (** val fR : n **)
 
 let fR =
@@ -1069,24 +995,6 @@ let fComp =
 let fZ =
   Npos (XO (XI (XI XH)))
 
-<<<<<<< HEAD
-(** val fGen : n **)
-
-let fGen =
-  Npos (XI (XI (XI XH)))
-
-(** val fX : n **)
-
-let fX =
-  Npos (XO (XO (XO (XO XH))))
-
-(** val fSub : n **)
-
-let fSub =
-  Npos (XI (XI (XO (XO XH))))
-
-=======
->>>>>>> main
 (** val edge : n -> n -> n -> var **)
 
 let edge u v i =
@@ -1648,452 +1556,7 @@ let aug_edges v e s t s0 t0 =
 
 type edge1 = n * n
 
-<<<<<<< HEAD
-(** val eqe : edge1 -> edge1 -> bool **)
-
-let eqe e1 e2 =
-  (&&) (N.eqb (fst e1) (fst e2)) (N.eqb (snd e1) (snd e2))
-
-(** val memN : n -> n list -> bool **)
-
-let memN x l =
-  existsb (N.eqb x) l
-
-(** val memE : edge1 -> edge1 list -> bool **)
-
-let memE e l =
-  existsb (eqe e) l
-
-(** val nodupE : edge1 list -> bool **)
-
-let rec nodupE = function
-| [] -> true
-| x :: r0 -> (&&) (negb (memE x r0)) (nodupE r0)
-
-(** val map_of : (n * n) list -> n -> n -> n **)
-
-let map_of l d v =
-  match find (fun p -> N.eqb (fst p) v) l with
-  | Some p -> snd p
-  | None -> d
-
-(** val pairs : n list -> edge1 list **)
-
-let rec pairs = function
-| [] -> []
-| a :: r0 -> (match r0 with
-              | [] -> []
-              | b :: _ -> (a, b) :: (pairs r0))
-
-(** val mem : ('a1 -> 'a1 -> bool) -> 'a1 -> 'a1 list -> bool **)
-
-let mem eqb0 x l =
-  existsb (eqb0 x) l
-
-(** val add_all : ('a1 -> 'a1 -> bool) -> 'a1 list -> 'a1 list -> 'a1 list **)
-
-let rec add_all eqb0 xs acc =
-  match xs with
-  | [] -> acc
-  | x :: r0 ->
-    if mem eqb0 x acc then add_all eqb0 r0 acc else add_all eqb0 r0 (x :: acc)
-
-(** val clos :
-    ('a1 -> 'a1 -> bool) -> ('a1 -> 'a1 list) -> nat -> 'a1 list -> 'a1 list **)
-
-let rec clos eqb0 step0 fuel s =
-  match fuel with
-  | O -> s
-  | S f ->
-    let s' = add_all eqb0 (flat_map step0 s) s in
-    if Nat.eqb (length s') (length s) then s else clos eqb0 step0 f s'
-
-(** val succs_of : edge1 list -> n -> n list **)
-
-let succs_of e u =
-  map snd (filter (fun e0 -> N.eqb (fst e0) u) e)
-
-(** val preds_of : edge1 list -> n -> n list **)
-
-let preds_of e v =
-  map fst (filter (fun e0 -> N.eqb (snd e0) v) e)
-
-(** val closure : n list -> (n -> n list) -> n -> n list **)
-
-let closure u step0 v =
-  clos N.eqb step0 (S (length u)) (v :: [])
-
-(** val upd : (n -> 'a1) -> n -> 'a1 -> n -> 'a1 **)
-
-let upd m v a x =
-  if N.eqb x v then a else m x
-
-(** val pull_step :
-    (n -> n list) -> (n -> n -> 'a1 -> 'a1 -> 'a1) -> (n -> 'a1) -> n -> n ->
-    'a1 **)
-
-let pull_step dep join2 m c =
-  upd m c (fold_left (fun acc s -> join2 c s acc (m s)) (dep c) (m c))
-
-(** val pull :
-    (n -> n list) -> (n -> n -> 'a1 -> 'a1 -> 'a1) -> n list -> (n -> 'a1) ->
-    n -> 'a1 **)
-
-let pull dep join2 order m0 =
-  fold_left (pull_step dep join2) order m0
-
-(** val push_step :
-    (n -> n list) -> ('a1 -> 'a1 -> 'a1) -> (n -> 'a1) -> n -> n -> 'a1 **)
-
-let push_step dep join m c =
-  fold_left (fun m' s -> upd m' s (join (m' s) (m' c))) (dep c) m
-
-(** val push :
-    (n -> n list) -> ('a1 -> 'a1 -> 'a1) -> n list -> (n -> 'a1) -> n -> 'a1 **)
-
-let push dep join order m0 =
-  fold_left (push_step dep join) order m0
-
-type cond = { c_map : (n -> n); c_edges : (n * n) list; c_topo : n list }
-
-(** val nodupb : n list -> bool **)
-
-let rec nodupb = function
-| [] -> true
-| x :: r0 -> (&&) (negb (memN x r0)) (nodupb r0)
-
-(** val beforeb : n list -> n -> n -> bool **)
-
-let rec beforeb l a b =
-  match l with
-  | [] -> false
-  | x :: r0 -> if N.eqb x a then memN b r0 else beforeb r0 a b
-
-(** val mutual : n list -> edge1 list -> n -> n -> bool **)
-
-let mutual v e u v0 =
-  (&&) (memN v0 (closure v (succs_of e) u))
-    (memN u (closure v (succs_of e) v0))
-
-(** val cond_ok : n list -> edge1 list -> cond -> bool **)
-
-let cond_ok v e c =
-  (&&)
-    ((&&)
-      ((&&)
-        ((&&)
-          ((&&)
-            ((&&)
-              ((&&) (nodupb v)
-                (forallb (fun e0 -> (&&) (memN (fst e0) v) (memN (snd e0) v))
-                  e))
-              (forallb (fun u ->
-                forallb (fun v0 ->
-                  eqb (N.eqb (c.c_map u) (c.c_map v0)) (mutual v e u v0)) v)
-                v))
-            (forallb (fun e0 ->
-              (||) (N.eqb (c.c_map (fst e0)) (c.c_map (snd e0)))
-                (memE ((c.c_map (fst e0)), (c.c_map (snd e0))) c.c_edges)) e))
-          (forallb (fun ce ->
-            (&&)
-              (existsb (fun e0 ->
-                eqe ((c.c_map (fst e0)), (c.c_map (snd e0))) ce) e)
-              (negb (N.eqb (fst ce) (snd ce)))) c.c_edges)) (nodupb c.c_topo))
-      (forallb (fun v0 -> memN (c.c_map v0) c.c_topo) v))
-    (forallb (fun ce -> beforeb c.c_topo (fst ce) (snd ce)) c.c_edges)
-
-(** val nodes_by_scc : n list -> cond -> n -> n list **)
-
-let nodes_by_scc v c c0 =
-  filter (fun n0 -> N.eqb (c.c_map n0) c0) v
-
-(** val descendants : cond -> n -> n list **)
-
-let descendants c c0 =
-  closure c.c_topo (succs_of c.c_edges) c0
-
-(** val ancestors : cond -> n -> n list **)
-
-let ancestors c c0 =
-  closure c.c_topo (preds_of c.c_edges) c0
-
-(** val nodes_reachable_cold : n list -> cond -> n -> n list option **)
-
-let nodes_reachable_cold v c v0 =
-  if memN v0 v
-  then Some (flat_map (nodes_by_scc v c) (descendants c (c.c_map v0)))
-  else None
-
-(** val nodes_reaching_cold : n list -> cond -> n -> n list option **)
-
-let nodes_reaching_cold v c v0 =
-  if memN v0 v
-  then Some (flat_map (nodes_by_scc v c) (ancestors c (c.c_map v0)))
-  else None
-
-(** val is_scc_edge_model : edge1 list -> cond -> n -> n -> bool option **)
-
-let is_scc_edge_model e c u v =
-  if memE (u, v) e then Some (N.eqb (c.c_map u) (c.c_map v)) else None
-
-(** val wt : (edge1 * z) list -> edge1 -> z **)
-
-let wt w0 e =
-  match find (fun p -> eqe (fst p) e) w0 with
-  | Some p -> snd p
-  | None -> Z0
-
-(** val local_out : edge1 list -> cond -> (edge1 * z) list -> n -> z **)
-
-let local_out e c w0 c0 =
-  fold_left (fun acc e0 ->
-    if (&&) (N.eqb (c.c_map (fst e0)) c0) (Z.gtb (wt w0 e0) acc)
-    then wt w0 e0
-    else acc) e Z0
-
-(** val local_in : edge1 list -> cond -> (edge1 * z) list -> n -> z **)
-
-let local_in e c w0 c0 =
-  fold_left (fun acc e0 ->
-    if (&&) (N.eqb (c.c_map (snd e0)) c0) (Z.gtb (wt w0 e0) acc)
-    then wt w0 e0
-    else acc) e Z0
-
-(** val zjoin : z -> z -> z **)
-
-let zjoin a b =
-  if Z.gtb b a then b else a
-
-(** val max_desc : edge1 list -> cond -> (edge1 * z) list -> n -> z **)
-
-let max_desc e c w0 =
-  pull (succs_of c.c_edges) (fun _ _ -> zjoin) (rev c.c_topo)
-    (local_out e c w0)
-
-(** val max_anc : edge1 list -> cond -> (edge1 * z) list -> n -> z **)
-
-let max_anc e c w0 =
-  push (succs_of c.c_edges) zjoin c.c_topo (local_in e c w0)
-
-(** val edge_max_reachable :
-    edge1 list -> cond -> (edge1 * z) list -> edge1 -> z **)
-
-let edge_max_reachable e c w0 e0 =
-  Z.max (Z.max (wt w0 e0) (max_desc e c w0 (c.c_map (snd e0))))
-    (max_anc e c w0 (c.c_map (fst e0)))
-
-(** val edge_max_reachable_all :
-    edge1 list -> cond -> (edge1 * z) list -> (edge1 * z) list **)
-
-let edge_max_reachable_all e c w0 =
-  map (fun e0 -> (e0, (edge_max_reachable e c w0 e0))) e
-
-type cache = { k_from : (n * n list) list; k_to : (n * n list) list }
-
-(** val cache0 : cache **)
-
-let cache0 =
-  { k_from = []; k_to = [] }
-
-(** val lookup : n -> (n * n list) list -> n list option **)
-
-let rec lookup v = function
-| [] -> None
-| p :: r0 -> let (k, s) = p in if N.eqb k v then Some s else lookup v r0
-
-(** val modify :
-    n -> (n list -> n list) -> (n * n list) list -> (n * n list) list **)
-
-let rec modify v g = function
-| [] -> []
-| p :: r0 ->
-  let (k, s) = p in
-  if N.eqb k v then (k, (g s)) :: r0 else (k, s) :: (modify v g r0)
-
-type query =
-| QReach of n
-| QReaching of n
-| QScc of n * n
-| QMut of bool * bool * n * n
-
-type answer =
-| ANodes of n list
-| ABool of bool
-| AErr
-| AUnit
-
-(** val qstep :
-    n list -> edge1 list -> cond -> bool -> cache -> query -> cache * answer **)
-
-let qstep v e c alias k = function
-| QReach v0 ->
-  if memN v0 v
-  then (match lookup v0 k.k_from with
-        | Some s -> (k, (ANodes s))
-        | None ->
-          (match nodes_reachable_cold v c v0 with
-           | Some s ->
-             ({ k_from = ((v0, s) :: k.k_from); k_to = k.k_to }, (ANodes s))
-           | None -> (k, AErr)))
-  else (k, AErr)
-| QReaching v0 ->
-  if memN v0 v
-  then (match lookup v0 k.k_to with
-        | Some s -> (k, (ANodes s))
-        | None ->
-          (match nodes_reaching_cold v c v0 with
-           | Some s ->
-             ({ k_from = k.k_from; k_to = ((v0, s) :: k.k_to) }, (ANodes s))
-           | None -> (k, AErr)))
-  else (k, AErr)
-| QScc (u, v0) ->
-  (k,
-    (match is_scc_edge_model e c u v0 with
-     | Some b -> ABool b
-     | None -> AErr))
-| QMut (fwd, add0, v0, x) ->
-  if alias
-  then let g = fun s ->
-         if add0 then x :: s else filter (fun y -> negb (N.eqb y x)) s
-       in
-       ((if fwd
-         then { k_from = (modify v0 g k.k_from); k_to = k.k_to }
-         else { k_from = k.k_from; k_to = (modify v0 g k.k_to) }), AUnit)
-  else (k, AUnit)
-
-(** val qrun :
-    n list -> edge1 list -> cond -> bool -> cache -> query list -> answer list **)
-
-let rec qrun v e c alias k = function
-| [] -> []
-| q0 :: r0 ->
-  let (k', a) = qstep v e c alias k q0 in a :: (qrun v e c alias k' r0)
-
-(** val union : n list -> n list -> n list **)
-
-let union a b =
-  add_all N.eqb b a
-
-(** val eunion : edge1 list -> edge1 list -> edge1 list **)
-
-let eunion a b =
-  add_all eqe b a
-
-(** val dag_topo_ok : n list -> edge1 list -> n list -> bool **)
-
-let dag_topo_ok v e topo =
-  (&&) ((&&) (nodupb topo) (forallb (fun v0 -> memN v0 topo) v))
-    (forallb (fun e0 -> beforeb topo (fst e0) (snd e0)) e)
-
-(** val dag_reachable_from : edge1 list -> n list -> n -> n list **)
-
-let dag_reachable_from e topo =
-  pull (succs_of e) (fun _ _ -> union) (rev topo) (fun v -> v :: [])
-
-(** val dag_nodes_reaching : edge1 list -> n list -> n -> n list **)
-
-let dag_nodes_reaching e topo =
-  pull (preds_of e) (fun _ _ -> union) topo (fun v -> v :: [])
-
-(** val dag_reachable_edges_from : edge1 list -> n list -> n -> edge1 list **)
-
-let dag_reachable_edges_from e topo =
-  pull (succs_of e) (fun c s acc ms -> eunion (eunion acc ms) ((c, s) :: []))
-    (rev topo) (fun _ -> [])
-
-(** val dag_reachable_edges_rev_from :
-    edge1 list -> n list -> n -> edge1 list **)
-
-let dag_reachable_edges_rev_from e topo =
-  pull (preds_of e) (fun c s acc ms -> eunion (eunion acc ms) ((s, c) :: []))
-    topo (fun _ -> [])
-
-(** val zsum : ('a1 -> z) -> 'a1 list -> z **)
-
-let zsum g l =
-  fold_right (fun a s -> Z.add (g a) s) Z0 l
-
-(** val indz : bool -> z **)
-
-let indz = function
-| true -> Zpos XH
-| false -> Z0
-
-(** val pairwise : ('a1 -> 'a1 -> bool) -> 'a1 list -> bool **)
-
-let rec pairwise r0 = function
-| [] -> true
-| x :: t -> (&&) (forallb (r0 x) t) (pairwise r0 t)
-
-(** val graph_ok : n list -> edge1 list -> bool **)
-
-let graph_ok v e =
-  (&&) (nodupb v)
-    (forallb (fun e0 -> (&&) (memN (fst e0) v) (memN (snd e0) v)) e)
-
-(** val reachb : n list -> edge1 list -> n -> n -> bool **)
-
-let reachb v e a b =
-  memN b (closure v (succs_of e) a)
-
-(** val incompatible : n list -> edge1 list -> edge1 -> edge1 -> bool **)
-
-let incompatible v e e1 e2 =
-  (&&) (negb (reachb v e (snd e1) (fst e2)))
-    (negb (reachb v e (snd e2) (fst e1)))
-
-(** val antichain_ok : n list -> edge1 list -> edge1 list -> bool **)
-
-let antichain_ok v e a =
-  (&&)
-    ((&&) ((&&) (graph_ok v e) (nodupE a)) (forallb (fun e0 -> memE e0 e) a))
-    (pairwise (incompatible v e) a)
-
-(** val route_okb : edge1 list -> n -> n -> n list -> bool **)
-
-let route_okb e s t p = match p with
-| [] -> false
-| a :: _ ->
-  (&&) ((&&) (N.eqb a s) (N.eqb (last p a) t))
-    (forallb (fun e0 -> memE e0 e) (pairs p))
-
-(** val coverage : (n list * z) list -> edge1 -> z **)
-
-let coverage p e =
-  zsum (fun pm -> Z.mul (snd pm) (indz (memE e (pairs (fst pm))))) p
-
-(** val cover_size : (n list * z) list -> z **)
-
-let cover_size p =
-  zsum snd p
-
-(** val cover_ok :
-    edge1 list -> n -> n -> (edge1 * z) list -> (n list * z) list -> bool **)
-
-let cover_ok e s t w0 p =
-  (&&)
-    (forallb (fun pm -> (&&) (route_okb e s t (fst pm)) (Z.leb Z0 (snd pm)))
-      p) (forallb (fun e0 -> Z.leb (wt w0 e0) (coverage p e0)) e)
-
-(** val antichain_weight : (edge1 * z) list -> edge1 list -> z **)
-
-let antichain_weight w0 a =
-  zsum (wt w0) a
-
-(** val certificate_ok :
-    n list -> edge1 list -> n -> n -> (edge1 * z) list -> edge1 list -> (n
-    list * z) list -> bool **)
-
-let certificate_ok v e s t w0 a p =
-  (&&) ((&&) (antichain_ok v e a) (cover_ok e s t w0 p))
-    (Z.eqb (antichain_weight w0 a) (cover_size p))
-
-type edge2 = n * n
-
-type graph = edge2 list
-=======
 type graph = edge1 list
->>>>>>> main
 
 (** val pop_out : graph -> n -> (n * graph) option **)
 
@@ -2117,13 +1580,8 @@ let rec trail fuel g cur =
        let (nxt, g1) = p in
        (match trail f g1 nxt with
         | Some p0 ->
-<<<<<<< HEAD
-          let (p1, st0) = p0 in
-          let (g', w0) = p1 in Some ((g', (nxt :: w0)), (cur :: st0))
-=======
           let (p1, st) = p0 in
           let (g', w0) = p1 in Some ((g', (nxt :: w0)), (cur :: st))
->>>>>>> main
         | None -> None)
      | None -> Some ((g, []), []))
 
@@ -2141,13 +1599,8 @@ let rec closed_from fuel g start cur =
        then Some ((g1, (nxt :: [])), (cur :: []))
        else (match closed_from f g1 start nxt with
              | Some p0 ->
-<<<<<<< HEAD
-               let (p1, st0) = p0 in
-               let (g', w0) = p1 in Some ((g', (nxt :: w0)), (cur :: st0))
-=======
                let (p1, st) = p0 in
                let (g', w0) = p1 in Some ((g', (nxt :: w0)), (cur :: st))
->>>>>>> main
              | None -> None)
      | None -> Some ((g, []), []))
 
@@ -2172,25 +1625,15 @@ let rec phase2 fuel efuel g w0 stack =
   | S f ->
     (match stack with
      | [] -> Some (g, w0)
-<<<<<<< HEAD
-     | v :: st0 ->
-=======
      | v :: st ->
->>>>>>> main
        if has_out g v
        then (match closed_from efuel g v v with
              | Some p ->
                let (p0, pushed) = p in
                let (g', c) = p0 in
-<<<<<<< HEAD
-               phase2 f efuel g' (splice w0 v c) (app (rev pushed) st0)
-             | None -> None)
-       else phase2 f efuel g w0 st0)
-=======
                phase2 f efuel g' (splice w0 v c) (app (rev pushed) st)
              | None -> None)
        else phase2 f efuel g w0 st)
->>>>>>> main
 
 (** val reconstruct : graph -> n -> (graph * n list) option **)
 
@@ -2198,13 +1641,8 @@ let reconstruct g s =
   let n0 = S (length g) in
   (match trail n0 g s with
    | Some p ->
-<<<<<<< HEAD
-     let (p0, st0) = p in
-     let (g1, w0) = p0 in phase2 (mul (S (S O)) n0) n0 g1 (s :: w0) (rev st0)
-=======
      let (p0, st) = p in
      let (g1, w0) = p0 in phase2 (mul (S (S O)) n0) n0 g1 (s :: w0) (rev st)
->>>>>>> main
    | None -> None)
 
 (** val round_half_even : q -> z **)
@@ -2220,11 +1658,7 @@ let round_half_even q0 =
        then Z.add fl (Zpos XH)
        else if Z.even fl then fl else Z.add fl (Zpos XH)
 
-<<<<<<< HEAD
-(** val residual_q : (edge2 * q) list -> graph **)
-=======
 (** val residual_q : (edge1 * q) list -> graph **)
->>>>>>> main
 
 let residual_q es =
   flat_map (fun pat ->
@@ -2241,606 +1675,13 @@ let strip_st s t w0 = match w0 with
      if (&&) (N.eqb a s) (N.eqb (last r0 a) t) then removelast r0 else w0)
 
 (** val solution_walk :
-<<<<<<< HEAD
-    (edge2 * q) list -> n -> n -> (nat * n list) option **)
-=======
     (edge1 * q) list -> n -> n -> (nat * n list) option **)
->>>>>>> main
 
 let solution_walk es s t =
   match reconstruct (residual_q es) s with
   | Some p -> let (g', w0) = p in Some ((length g'), (strip_st s t w0))
   | None -> None
 
-<<<<<<< HEAD
-(** val fY : n **)
-
-let fY =
-  Npos (XO (XI (XI (XI XH))))
-
-(** val fPiY : n **)
-
-let fPiY =
-  Npos (XI (XI (XI (XI XH))))
-
-(** val fFV : n **)
-
-let fFV =
-  Npos (XO (XO (XO (XO (XO XH)))))
-
-(** val fFVU : n **)
-
-let fFVU =
-  Npos (XI (XO (XO (XO (XO XH)))))
-
-(** val fFVM : n **)
-
-let fFVM =
-  Npos (XO (XI (XO (XO (XO XH)))))
-
-(** val gen : n -> var **)
-
-let gen i =
-  { vfam = fGen; vidx = (i :: []) }
-
-(** val xv : n -> n -> var **)
-
-let xv i j =
-  { vfam = fX; vidx = (i :: (j :: [])) }
-
-(** val pij : n -> n -> var **)
-
-let pij i j =
-  { vfam = fPi; vidx = (i :: (j :: [])) }
-
-(** val yv : n -> n -> n -> var **)
-
-let yv i j c =
-  { vfam = fY; vidx = (i :: (j :: (c :: []))) }
-
-(** val piY : n -> n -> n -> var **)
-
-let piY i j c =
-  { vfam = fPiY; vidx = (i :: (j :: (c :: []))) }
-
-(** val sub0 : n -> var **)
-
-let sub0 i =
-  { vfam = fSub; vidx = (i :: []) }
-
-(** val xe : edge0 -> var **)
-
-let xe e =
-  { vfam = fX; vidx = ((fst e) :: ((snd e) :: [])) }
-
-(** val erre : edge0 -> var **)
-
-let erre e =
-  { vfam = fErr; vidx = ((fst e) :: ((snd e) :: [])) }
-
-(** val fV : n -> var **)
-
-let fV i =
-  { vfam = fFV; vidx = (i :: []) }
-
-(** val fVU : n -> var **)
-
-let fVU i =
-  { vfam = fFVU; vidx = (i :: []) }
-
-(** val fVM : edge0 -> n -> var **)
-
-let fVM e i =
-  { vfam = fFVM; vidx = ((fst e) :: ((snd e) :: (i :: []))) }
-
-(** val qcol : var -> q -> q -> bool -> col **)
-
-let qcol v lb ub isint =
-  { cvar = v; clb = lb; cub = ub; cint = isint }
-
-(** val idxs : 'a1 list -> n list **)
-
-let idxs l =
-  layers (length l)
-
-type mgs_inst = { mg_numbers : q list; mg_total : q; mg_int : bool;
-                  mg_mult : nat; mg_parts : q list list option }
-
-(** val qmem : q -> q list -> bool **)
-
-let qmem x l =
-  existsb (qeq_bool x) l
-
-(** val qlt_bool : q -> q -> bool **)
-
-let qlt_bool a b =
-  negb (qle_bool b a)
-
-(** val mgs_removed : q list -> q -> q list **)
-
-let mgs_removed numbers total =
-  flat_map (fun v ->
-    app
-      (if (&&) (qmem (qminus total v) numbers) (qlt_bool v (qminus total v))
-       then (qminus total v) :: []
-       else [])
-      (if (||) (qeq_bool v total) (qeq_bool v { qnum = Z0; qden = XH })
-       then v :: []
-       else [])) numbers
-
-(** val qnodup : q list -> q list **)
-
-let rec qnodup = function
-| [] -> []
-| x :: r0 -> let r' = qnodup r0 in if qmem x r' then r' else x :: r'
-
-(** val mgs_preprocess : bool -> q list -> q -> q list **)
-
-let mgs_preprocess remove_complements numbers total =
-  if remove_complements
-  then qnodup
-         (filter (fun x -> negb (qmem x (mgs_removed numbers total))) numbers)
-  else numbers
-
-(** val mult1 : mgs_inst -> bool **)
-
-let mult1 i =
-  Nat.eqb i.mg_mult (S O)
-
-(** val x_ub : mgs_inst -> q **)
-
-let x_ub i =
-  if mult1 i
-  then { qnum = (Zpos XH); qden = XH }
-  else inject_Z (Z.of_nat i.mg_mult)
-
-(** val nbits : mgs_inst -> nat **)
-
-let nbits i =
-  num_bits i.mg_total
-
-(** val parts_of : mgs_inst -> q list list **)
-
-let parts_of i =
-  match i.mg_parts with
-  | Some cs -> cs
-  | None -> []
-
-(** val parts_t : mgs_inst -> nat **)
-
-let parts_t i =
-  fold_right Nat.max O (map length (parts_of i))
-
-(** val ijc : mgs_inst -> nat -> ((n * n) * n) list **)
-
-let ijc i k =
-  flat_map (fun i0 ->
-    flat_map (fun j -> map (fun c -> ((i0, j), c)) (idxs (parts_of i)))
-      (layers (parts_t i))) (layers k)
-
-(** val part_cols : mgs_inst -> nat -> col list **)
-
-let part_cols i k =
-  match parts_of i with
-  | [] -> []
-  | _ :: _ ->
-    app
-      (map (fun t -> bincol (yv (fst (fst t)) (snd (fst t)) (snd t)))
-        (ijc i k))
-      (map (fun t ->
-        qcol (piY (fst (fst t)) (snd (fst t)) (snd t)) { qnum = Z0; qden =
-          XH } i.mg_total i.mg_int) (ijc i k))
-
-(** val part_rows : mgs_inst -> nat -> row list **)
-
-let part_rows i k =
-  match parts_of i with
-  | [] -> []
-  | _ :: _ ->
-    app
-      (flat_map (fun t ->
-        let (y, c) = t in
-        let (i0, j) = y in
-        mcc_rows (yv i0 j c) (gen i0) (piY i0 j c) { qnum = Z0; qden = XH }
-          i.mg_total) (ijc i k))
-      (app
-        (flat_map (fun i0 ->
-          map (fun c ->
-            mkrow
-              (map (fun j -> ((yv i0 j c), { qnum = (Zpos XH); qden = XH }))
-                (layers (parts_t i))) SEq { qnum = (Zpos XH); qden = XH })
-            (idxs (parts_of i))) (layers k))
-        (flat_map (fun cc ->
-          map (fun jv ->
-            mkrow
-              (map (fun i0 -> ((piY i0 (fst jv) (fst cc)), { qnum = (Zpos
-                XH); qden = XH })) (layers k)) SEq (snd jv)) (zipn O (snd cc)))
-          (zipn O (parts_of i))))
-
-(** val mgs_cols : mgs_inst -> nat -> col list **)
-
-let mgs_cols i k =
-  app
-    (map (fun i0 ->
-      qcol (gen i0) { qnum = Z0; qden = XH } i.mg_total i.mg_int) (layers k))
-    (app
-      (flat_map (fun i0 ->
-        map (fun j -> qcol (xv i0 j) { qnum = Z0; qden = XH } (x_ub i) true)
-          (idxs i.mg_numbers)) (layers k))
-      (app
-        (flat_map (fun i0 ->
-          map (fun j ->
-            qcol (pij i0 j) { qnum = Z0; qden = XH } i.mg_total i.mg_int)
-            (idxs i.mg_numbers)) (layers k))
-        (app
-          (if mult1 i
-           then []
-           else flat_map (fun j ->
-                  flat_map (fun i0 ->
-                    intprod_cols (pij i0 j) { qnum = Z0; qden = XH }
-                      i.mg_total (nbits i)) (layers k)) (idxs i.mg_numbers))
-          (part_cols i k))))
-
-(** val prod_rows : mgs_inst -> n -> n -> row list **)
-
-let prod_rows i i0 j =
-  if mult1 i
-  then mcc_rows (xv i0 j) (gen i0) (pij i0 j) { qnum = Z0; qden = XH }
-         i.mg_total
-  else intprod_rows (xv i0 j) (gen i0) (pij i0 j) { qnum = Z0; qden = XH }
-         i.mg_total (nbits i)
-
-(** val row_total : mgs_inst -> nat -> row **)
-
-let row_total i k =
-  mkrow
-    (map (fun i0 -> ((gen i0), { qnum = (Zpos XH); qden = XH })) (layers k))
-    SEq i.mg_total
-
-(** val row_sum_pi : nat -> (n * q) -> row **)
-
-let row_sum_pi k ja =
-  mkrow
-    (map (fun i -> ((pij i (fst ja)), { qnum = (Zpos XH); qden = XH }))
-      (layers k)) SEq (snd ja)
-
-(** val sym_rows : nat -> row list **)
-
-let sym_rows k =
-  map (fun i ->
-    mkrow (((gen i), { qnum = (Zpos XH); qden =
-      XH }) :: (((gen (N.add i (Npos XH))),
-      (qopp { qnum = (Zpos XH); qden = XH })) :: [])) SLe { qnum = Z0; qden =
-      XH }) (layers (sub k (S (S O))))
-
-(** val mgs_rows : mgs_inst -> nat -> row list **)
-
-let mgs_rows i k =
-  app ((row_total i k) :: [])
-    (app
-      (flat_map (fun ja ->
-        app (flat_map (fun i0 -> prod_rows i i0 (fst ja)) (layers k))
-          ((row_sum_pi k ja) :: [])) (zipn O i.mg_numbers))
-      (app (sym_rows k) (part_rows i k)))
-
-(** val encode_mgs : mgs_inst -> nat -> milp **)
-
-let encode_mgs i k =
-  { cols = (mgs_cols i k); rows = (mgs_rows i k); obj = []; maximize = false }
-
-type mstatus =
-| MgOptimal
-| MgInfeasible
-| MgOther
-
-(** val mgsm_range : nat -> nat -> nat list **)
-
-let mgsm_range lowerbound n_initial =
-  seq lowerbound
-    (sub (Nat.max (add lowerbound (S O)) (add n_initial (S (S O))))
-      lowerbound)
-
-(** val mgsm_loop_on :
-    (nat -> mstatus) -> nat list -> nat list * nat option **)
-
-let rec mgsm_loop_on status0 = function
-| [] -> ([], None)
-| k :: r0 ->
-  (match status0 k with
-   | MgOptimal -> ((k :: []), (Some k))
-   | MgInfeasible ->
-     let (tried, res0) = mgsm_loop_on status0 r0 in ((k :: tried), res0)
-   | MgOther -> ((k :: []), None))
-
-(** val mgsm_loop :
-    (nat -> mstatus) -> nat -> nat -> nat list * nat option **)
-
-let mgsm_loop status0 lowerbound n_initial =
-  mgsm_loop_on status0 (mgsm_range lowerbound n_initial)
-
-(** val py_int : q -> z **)
-
-let py_int q0 =
-  Z.quot q0.qnum (Zpos q0.qden)
-
-type msc_inst = { sc_universe : n list; sc_subsets : n list list;
-                  sc_weights : q list option }
-
-(** val nmem : n -> n list -> bool **)
-
-let nmem x l =
-  existsb (N.eqb x) l
-
-(** val msc_cols : msc_inst -> col list **)
-
-let msc_cols i =
-  map (fun i0 -> bincol (sub0 i0)) (idxs i.sc_subsets)
-
-(** val cover_row : msc_inst -> n -> row **)
-
-let cover_row i el =
-  mkrow
-    (map (fun iS -> ((sub0 (fst iS)), { qnum = (Zpos XH); qden = XH }))
-      (filter (fun iS -> nmem el (snd iS)) (zipn O i.sc_subsets))) SGe
-    { qnum = (Zpos XH); qden = XH }
-
-(** val msc_rows : msc_inst -> row list **)
-
-let msc_rows i =
-  map (cover_row i) i.sc_universe
-
-(** val msc_obj : nat -> n list list -> q list -> lin option **)
-
-let rec msc_obj i subsets ws =
-  match subsets with
-  | [] -> Some []
-  | _ :: r0 ->
-    (match ws with
-     | [] -> None
-     | w0 :: wr ->
-       option_map (fun x -> ((sub0 (N.of_nat i)), w0) :: x)
-         (msc_obj (S i) r0 wr))
-
-(** val encode_msc : msc_inst -> milp option **)
-
-let encode_msc i =
-  match i.sc_weights with
-  | Some ws ->
-    option_map (fun o -> { cols = (msc_cols i); rows = (msc_rows i); obj = o;
-      maximize = false }) (msc_obj O i.sc_subsets ws)
-  | None -> None
-
-type mef_inst = { mef_nodes : n list; mef_edges : edge0 list;
-                  mef_flow : (edge0 * q) list; mef_ignore : edge0 list;
-                  mef_scale : (edge0 * q) list; mef_lambda : q;
-                  mef_src : n option; mef_int : bool }
-
-(** val mef_in_edges : edge0 list -> n -> edge0 list **)
-
-let mef_in_edges e v =
-  filter (fun e0 -> N.eqb (snd e0) v) e
-
-(** val has_flow : mef_inst -> edge0 -> bool **)
-
-let has_flow i e =
-  existsb (fun p -> edge_eqb (fst p) e) i.mef_flow
-
-(** val fval : mef_inst -> edge0 -> q **)
-
-let fval i e =
-  lookup_q e i.mef_flow { qnum = Z0; qden = XH }
-
-(** val ignored : mef_inst -> edge0 -> bool **)
-
-let ignored i e =
-  mem_edge e i.mef_ignore
-
-(** val scale_of : mef_inst -> edge0 -> q **)
-
-let scale_of i e =
-  lookup_q e i.mef_scale { qnum = (Zpos XH); qden = XH }
-
-(** val mef_ok : mef_inst -> bool **)
-
-let mef_ok i =
-  forallb (fun e -> (||) (ignored i e) (has_flow i e)) i.mef_edges
-
-(** val mef_wmax : mef_inst -> q **)
-
-let mef_wmax i =
-  match map (fval i) i.mef_edges with
-  | [] -> { qnum = Z0; qden = XH }
-  | x :: r0 -> list_max x r0
-
-(** val mef_ub : mef_inst -> q **)
-
-let mef_ub i =
-  qmult (mef_wmax i) (inject_Z (Z.of_nat (length i.mef_edges)))
-
-(** val conserved : mef_inst -> n -> bool **)
-
-let conserved i v =
-  match mef_in_edges i.mef_edges v with
-  | [] -> false
-  | _ :: _ ->
-    (match out_edges i.mef_edges v with
-     | [] -> false
-     | _ :: _ -> true)
-
-(** val cons_row : mef_inst -> n -> row **)
-
-let cons_row i v =
-  mkrow
-    (app
-      (map (fun e -> ((xe e), { qnum = (Zpos XH); qden = XH }))
-        (mef_in_edges i.mef_edges v))
-      (map (fun e -> ((xe e), (qopp { qnum = (Zpos XH); qden = XH })))
-        (out_edges i.mef_edges v))) SEq { qnum = Z0; qden = XH }
-
-(** val err_rows : mef_inst -> edge0 -> row list **)
-
-let err_rows i e =
-  if ignored i e
-  then (mkrow (((erre e), { qnum = (Zpos XH); qden = XH }) :: []) SEq
-         { qnum = Z0; qden = XH }) :: []
-  else (mkrow (((xe e),
-         (qopp { qnum = (Zpos XH); qden = XH })) :: (((erre e),
-         (qopp { qnum = (Zpos XH); qden = XH })) :: [])) SLe
-         (qopp (fval i e))) :: ((mkrow (((xe e), { qnum = (Zpos XH); qden =
-                                  XH }) :: (((erre e),
-                                  (qopp { qnum = (Zpos XH); qden = XH })) :: []))
-                                  SLe (fval i e)) :: [])
-
-(** val mef_cols : mef_inst -> col list **)
-
-let mef_cols i =
-  app
-    (map (fun e -> qcol (xe e) { qnum = Z0; qden = XH } (mef_ub i) i.mef_int)
-      i.mef_edges)
-    (map (fun e ->
-      qcol (erre e) { qnum = Z0; qden = XH } (mef_ub i) i.mef_int)
-      i.mef_edges)
-
-(** val mef_rows : mef_inst -> row list **)
-
-let mef_rows i =
-  app (map (cons_row i) (filter (conserved i) i.mef_nodes))
-    (flat_map (err_rows i) i.mef_edges)
-
-(** val mef_obj : mef_inst -> lin **)
-
-let mef_obj i =
-  app
-    (map (fun e -> ((erre e), (scale_of i e)))
-      (filter (fun e -> negb (ignored i e)) i.mef_edges))
-    (if qlt_bool { qnum = Z0; qden = XH } i.mef_lambda
-     then (match i.mef_src with
-           | Some s ->
-             map (fun e -> ((xe e), i.mef_lambda)) (out_edges i.mef_edges s)
-           | None -> [])
-     else [])
-
-(** val encode_mef : mef_inst -> milp **)
-
-let encode_mef i =
-  { cols = (mef_cols i); rows = (mef_rows i); obj = (mef_obj i); maximize =
-    false }
-
-(** val mef2_cols : mef_inst -> edge0 list -> nat -> col list **)
-
-let mef2_cols i subset nvals =
-  app
-    (map (fun i0 ->
-      qcol (fV i0) { qnum = Z0; qden = XH } (mef_ub i) i.mef_int)
-      (layers nvals))
-    (app (map (fun i0 -> bincol (fVU i0)) (layers nvals))
-      (flat_map (fun e -> map (fun i0 -> bincol (fVM e i0)) (layers nvals))
-        subset))
-
-(** val mef2_edge_rows : mef_inst -> nat -> edge0 -> row list **)
-
-let mef2_edge_rows i nvals e =
-  (mkrow
-    (map (fun i0 -> ((fVM e i0), { qnum = (Zpos XH); qden = XH }))
-      (layers nvals)) SEq { qnum = (Zpos XH); qden = XH }) :: (flat_map
-                                                                (fun i0 ->
-                                                                (mkrow
-                                                                  (((xe e),
-                                                                  { qnum =
-                                                                  (Zpos XH);
-                                                                  qden =
-                                                                  XH }) :: ((
-                                                                  (fV i0),
-                                                                  (qopp
-                                                                    { qnum =
-                                                                    (Zpos
-                                                                    XH);
-                                                                    qden =
-                                                                    XH })) :: ((
-                                                                  (fVM e i0),
-                                                                  (mef_ub i)) :: [])))
-                                                                  SLe
-                                                                  (mef_ub i)) :: (
-                                                                (mkrow
-                                                                  (((xe e),
-                                                                  { qnum =
-                                                                  (Zpos XH);
-                                                                  qden =
-                                                                  XH }) :: ((
-                                                                  (fV i0),
-                                                                  (qopp
-                                                                    { qnum =
-                                                                    (Zpos
-                                                                    XH);
-                                                                    qden =
-                                                                    XH })) :: ((
-                                                                  (fVM e i0),
-                                                                  (qopp
-                                                                    (mef_ub i))) :: [])))
-                                                                  SGe
-                                                                  (qopp
-                                                                    (mef_ub i))) :: (
-                                                                (mkrow
-                                                                  (((fVU i0),
-                                                                  { qnum =
-                                                                  (Zpos XH);
-                                                                  qden =
-                                                                  XH }) :: ((
-                                                                  (fVM e i0),
-                                                                  (qopp
-                                                                    { qnum =
-                                                                    (Zpos
-                                                                    XH);
-                                                                    qden =
-                                                                    XH })) :: []))
-                                                                  SGe
-                                                                  { qnum =
-                                                                  Z0; qden =
-                                                                  XH }) :: [])))
-                                                                (layers nvals))
-
-(** val mef2_budget : q -> q -> q **)
-
-let mef2_budget eps opt =
-  qmult (qplus { qnum = (Zpos XH); qden = XH } eps) opt
-
-(** val encode_mef2 : mef_inst -> edge0 list -> q -> q -> nat -> milp **)
-
-let encode_mef2 i subset eps opt nvals =
-  { cols = (app (mef_cols i) (mef2_cols i subset nvals)); rows =
-    (app (mef_rows i)
-      (app (flat_map (mef2_edge_rows i nvals) subset)
-        ((mkrow (mef_obj i) SLe (mef2_budget eps opt)) :: []))); obj =
-    (map (fun i0 -> ((fVU i0), { qnum = (Zpos XH); qden = XH }))
-      (layers nvals)); maximize = false }
-
-(** val py_round_half_even : q -> z **)
-
-let py_round_half_even q0 =
-  let fl = Z.div q0.qnum (Zpos q0.qden) in
-  let r0 = qminus q0 (inject_Z fl) in
-  if qlt_bool r0 { qnum = (Zpos XH); qden = (XO XH) }
-  then fl
-  else if qlt_bool { qnum = (Zpos XH); qden = (XO XH) } r0
-       then Z.add fl (Zpos XH)
-       else if Z.even fl then fl else Z.add fl (Zpos XH)
-
-(** val corrected_value : mef_inst -> (edge0 -> q) -> edge0 -> q **)
-
-let corrected_value i x e =
-  if i.mef_int then inject_Z (py_round_half_even (x e)) else x e
-
-(** val corrected_graph :
-    mef_inst -> n list -> edge0 list -> (edge0 -> q) -> n list * (edge0 * q
-    option) list **)
-
-let corrected_graph i nodes edges x =
-  (nodes,
-    (map (fun e -> (e,
-      (if has_flow i e then Some (corrected_value i x e) else None))) edges))
-
-=======
->>>>>>> main
 type str = n list
 
 (** val is_ws : n -> bool **)
@@ -3412,15 +2253,9 @@ let rec scan lines hdrs seen cstr =
   | [] -> (([], hdrs), cstr)
   | l :: r0 ->
     if is_hdr l
-<<<<<<< HEAD
-    then let st0 = lstrip l in
-         if starts_with (c_hash :: (c_S :: [])) st0
-         then let nodes_part = strip (skipn (S (S O)) st0) in
-=======
     then let st = lstrip l in
          if starts_with (c_hash :: (c_S :: [])) st
          then let nodes_part = strip (skipn (S (S O)) st) in
->>>>>>> main
               (match nodes_part with
                | [] -> scan r0 hdrs seen cstr
                | _ :: _ ->
@@ -3432,11 +2267,7 @@ let rec scan lines hdrs seen cstr =
                        | p :: l0 ->
                          scan r0 hdrs (toks :: seen)
                            (app cstr ((p :: l0) :: []))))
-<<<<<<< HEAD
-         else scan r0 (app hdrs ((strip (lstrip_hash st0)) :: [])) seen cstr
-=======
          else scan r0 (app hdrs ((strip (lstrip_hash st)) :: [])) seen cstr
->>>>>>> main
     else ((lines, hdrs), cstr)
 
 (** val skip_blank : str list -> str list **)
@@ -3635,187 +2466,6 @@ let rec show_aux fuel n0 acc =
 let show_N n0 =
   show_aux (S (N.to_nat (N.log2 n0))) n0 []
 
-<<<<<<< HEAD
-(** val sumL : ('a1 -> z) -> 'a1 list -> z **)
-
-let sumL g l =
-  fold_right (fun a s -> Z.add (g a) s) Z0 l
-
-(** val ind1 : bool -> z **)
-
-let ind1 = function
-| true -> Zpos XH
-| false -> Z0
-
-(** val sub1 : (edge1 -> z) -> z -> n list -> edge1 -> z **)
-
-let sub1 f b p e =
-  Z.sub (f e) (Z.mul b (ind1 (memE e (pairs p))))
-
-(** val npos : edge1 list -> (edge1 -> z) -> nat **)
-
-let npos g f =
-  length (filter (fun e -> Z.ltb Z0 (f e)) g)
-
-type outcome =
-| MBPath of z * n list
-| MBNoPath
-| MBNoSink
-
-type peel_result =
-| PeelOK of (n list * z) list
-| PeelKeyError
-| PeelOutOfFuel
-
-(** val peel :
-    ((edge1 -> z) -> outcome) -> nat -> (edge1 -> z) -> peel_result **)
-
-let rec peel find0 fuel f =
-  match fuel with
-  | O -> PeelOutOfFuel
-  | S k ->
-    (match find0 f with
-     | MBPath (b, p) ->
-       (match peel find0 k (sub1 f b p) with
-        | PeelOK d -> PeelOK ((p, b) :: d)
-        | x -> x)
-     | MBNoPath -> PeelOK []
-     | MBNoSink -> PeelKeyError)
-
-(** val explained : (n list * z) list -> edge1 -> z **)
-
-let explained d e =
-  sumL (fun pw -> Z.mul (snd pw) (ind1 (memE e (pairs (fst pw))))) d
-
-type bval = z option
-
-(** val bmin : bval -> z -> z **)
-
-let bmin b z0 =
-  match b with
-  | Some y -> Z.min y z0
-  | None -> z0
-
-type st = { bB : (n -> bval); bP : (n -> n); bbest : (n * z) option }
-
-(** val pick :
-    (edge1 -> z) -> (n -> bval) -> n -> (z * n) option -> n -> (z * n) option **)
-
-let pick f bf v acc u =
-  let c = bmin (bf u) (f (u, v)) in
-  (match acc with
-   | Some p -> let (b, _) = p in if Z.ltb b c then Some (c, u) else acc
-   | None -> Some (c, u))
-
-(** val best_pred :
-    (edge1 -> z) -> (n -> bval) -> n -> n list -> (z * n) option **)
-
-let best_pred f bf v ps =
-  fold_left (pick f bf v) ps None
-
-(** val dp_step :
-    (edge1 -> z) -> (n -> n list) -> (n -> n list) -> st -> n -> st **)
-
-let dp_step f preds0 succs0 s v =
-  match preds0 v with
-  | [] -> { bB = (upd s.bB v None); bP = s.bP; bbest = s.bbest }
-  | n0 :: l ->
-    (match best_pred f s.bB v (n0 :: l) with
-     | Some p ->
-       let (b, u) = p in
-       { bB = (upd s.bB v (Some b)); bP = (upd s.bP v u); bbest =
-       (match succs0 v with
-        | [] ->
-          (match s.bbest with
-           | Some p0 ->
-             let (_, bw) = p0 in if Z.ltb bw b then Some (v, b) else s.bbest
-           | None -> Some (v, b))
-        | _ :: _ -> s.bbest) }
-     | None -> s)
-
-(** val dp_init : st **)
-
-let dp_init =
-  { bB = (fun _ -> None); bP = (fun x -> x); bbest = None }
-
-(** val back : (n -> n list) -> nat -> (n -> n) -> n -> n list -> n list **)
-
-let rec back preds0 fuel pf v acc =
-  match fuel with
-  | O -> v :: acc
-  | S k ->
-    (match preds0 v with
-     | [] -> v :: acc
-     | _ :: _ -> back preds0 k pf (pf v) (v :: acc))
-
-(** val max_bottleneck :
-    (edge1 -> z) -> (n -> n list) -> (n -> n list) -> n list -> outcome **)
-
-let max_bottleneck f preds0 succs0 topo =
-  let s = fold_left (dp_step f preds0 succs0) topo dp_init in
-  (match s.bbest with
-   | Some p ->
-     let (v, b) = p in
-     if Z.eqb b Z0
-     then MBNoPath
-     else MBPath (b, (back preds0 (length topo) s.bP v []))
-   | None -> MBNoSink)
-
-(** val decompose :
-    edge1 list -> (n -> n list) -> (n -> n list) -> n list -> (edge1 -> z) ->
-    peel_result **)
-
-let decompose g preds0 succs0 topo f =
-  peel (fun g0 -> max_bottleneck g0 preds0 succs0 topo) (S (npos g f)) f
-
-(** val flow_of : (edge1 * z) list -> edge1 -> z **)
-
-let flow_of =
-  wt
-
-(** val adj_of : (n * n list) list -> n -> n list **)
-
-let adj_of a v =
-  match find (fun p -> N.eqb (fst p) v) a with
-  | Some p -> snd p
-  | None -> []
-
-(** val max_bottleneck_run :
-    (edge1 * z) list -> (n * n list) list -> (n * n list) list -> n list ->
-    outcome **)
-
-let max_bottleneck_run w0 p s topo =
-  max_bottleneck (flow_of w0) (adj_of p) (adj_of s) topo
-
-(** val decompose_run :
-    (edge1 * z) list -> (n * n list) list -> (n * n list) list -> n list ->
-    peel_result **)
-
-let decompose_run w0 p s topo =
-  decompose (map fst w0) (adj_of p) (adj_of s) topo (flow_of w0)
-
-(** val peel_inputs_ok :
-    edge1 list -> (n * n list) list -> (n * n list) list -> n list -> bool **)
-
-let peel_inputs_ok g p s topo =
-  (&&)
-    ((&&)
-      ((&&)
-        ((&&) ((&&) (nodupE g) (nodupb topo))
-          (forallb (fun e -> beforeb topo (fst e) (snd e)) g))
-        (forallb (fun e ->
-          (&&) (memN (fst e) (adj_of p (snd e)))
-            (memN (snd e) (adj_of s (fst e)))) g))
-      (forallb (fun p0 -> forallb (fun u -> memE (u, (fst p0)) g) (snd p0)) p))
-    (forallb (fun p0 -> forallb (fun x -> memE ((fst p0), x) g) (snd p0)) s)
-
-(** val explains_ok : (edge1 * z) list -> (n list * z) list -> bool **)
-
-let explains_ok w0 d =
-  forallb (fun p -> Z.eqb (explained d (fst p)) (snd p)) w0
-
-=======
->>>>>>> main
 (** val qabs : q -> q **)
 
 let qabs x =
@@ -3862,35 +2512,6 @@ let kinit c =
 
 (** val kstep : kcfg -> kstate -> kop -> kstate * kout **)
 
-<<<<<<< HEAD
-let kstep c st0 = function
-| Solve r0 ->
-  if c.external0
-  then ({ solved = true; cached = st0.cached }, (RetBool true))
-  else if is_optimal (status_of r0)
-       then ({ solved = true; cached = ((||) st0.cached c.obj_fills_cache) },
-              (RetBool true))
-       else ({ solved = false; cached = st0.cached }, (RetBool false))
-| GetSolution ->
-  if st0.cached
-  then (st0, RetData)
-  else if st0.solved
-       then ({ solved = true; cached = true }, RetData)
-       else (st0, Raise)
-| GetObjective ->
-  if st0.solved
-  then ({ solved = true; cached = ((||) st0.cached c.obj_fills_cache) },
-         RetData)
-  else (st0, Raise)
-| IsSolvedQ -> (st0, (RetBool st0.solved))
-
-(** val kruns : kcfg -> kstate -> kop list -> kstate * kout list **)
-
-let rec kruns c st0 = function
-| [] -> (st0, [])
-| o :: r0 ->
-  let (st1, x) = kstep c st0 o in
-=======
 let kstep c st = function
 | Solve r0 ->
   if c.external0
@@ -3918,7 +2539,6 @@ let rec kruns c st = function
 | [] -> (st, [])
 | o :: r0 ->
   let (st1, x) = kstep c st o in
->>>>>>> main
   let (st2, xs) = kruns c st1 r0 in (st2, (x :: xs))
 
 (** val kinvocations : kcfg -> kop list -> nat **)
@@ -3938,11 +2558,7 @@ type result =
 | Crashed
 | Starved
 
-<<<<<<< HEAD
-type outcome0 = { so_res : result; used : nat; aux : nat; lbk : nat }
-=======
 type outcome = { so_res : result; used : nat; aux : nat; lbk : nat }
->>>>>>> main
 
 (** val kloop :
     (nat -> bool) -> (nat -> bool) -> nat list -> raw list -> nat ->
@@ -3996,14 +2612,6 @@ let rec mgs_loop mgs_skips ks sts n0 =
           then mgs_loop mgs_skips ks' sts' (S n0)
           else (NotSolved, (S n0))))
 
-<<<<<<< HEAD
-(** val mgs_range : nat -> nat -> nat list **)
-
-let mgs_range lb nnumbers =
-  krange lb (Nat.max (add lb (S O)) nnumbers)
-
-(** val mgs_solve : bool -> nat -> nat -> raw list -> outcome0 **)
-=======
 (** val mgs_upper : nat -> nat -> nat **)
 
 let mgs_upper lb nnumbers =
@@ -4015,7 +2623,6 @@ let mgs_range lb nnumbers =
   krange lb (mgs_upper lb nnumbers)
 
 (** val mgs_solve : bool -> nat -> nat -> raw list -> outcome **)
->>>>>>> main
 
 let mgs_solve mgs_skips lb nnumbers sts =
   let (r0, n0) = mgs_loop mgs_skips (mgs_range lb nnumbers) sts O in
@@ -4049,11 +2656,7 @@ let given_match given k =
   | Some g -> Nat.eqb g k
   | None -> false
 
-<<<<<<< HEAD
-(** val fd_solve : bool -> bool -> fd_params -> raw list -> outcome0 **)
-=======
 (** val fd_solve : bool -> bool -> fd_params -> raw list -> outcome **)
->>>>>>> main
 
 let fd_solve mgs_skips exit_on_fail p sts =
   match lb_phase mgs_skips exit_on_fail p.use_mgs p.lb0 p.nweights sts with
@@ -4079,33 +2682,21 @@ let fd_solve mgs_skips exit_on_fail p sts =
   | LExit n0 -> { so_res = Exited; used = n0; aux = n0; lbk = p.lb0 }
   | LStarved n0 -> { so_res = Starved; used = n0; aux = n0; lbk = p.lb0 }
 
-<<<<<<< HEAD
-(** val mfd_solve : bool -> bool -> fd_params -> raw list -> outcome0 **)
-=======
 (** val mfd_solve : bool -> bool -> fd_params -> raw list -> outcome **)
->>>>>>> main
 
 let mfd_solve mgs_skips exit_on_fail p sts =
   fd_solve mgs_skips exit_on_fail { lb0 = p.lb0; upper_excl = p.upper_excl;
     nedges = p.nedges; use_mgs = p.use_mgs; nweights = p.nweights; guessed =
     p.guessed; gw_paths = p.gw_paths; greedy = p.greedy; over = never } sts
 
-<<<<<<< HEAD
-(** val mfdc_solve : bool -> fd_params -> raw list -> outcome0 **)
-=======
 (** val mfdc_solve : bool -> fd_params -> raw list -> outcome **)
->>>>>>> main
 
 let mfdc_solve mgs_skips p sts =
   fd_solve mgs_skips false { lb0 = p.lb0; upper_excl = p.upper_excl; nedges =
     p.nedges; use_mgs = p.use_mgs; nweights = p.nweights; guessed =
     p.guessed; gw_paths = p.gw_paths; greedy = never; over = p.over } sts
 
-<<<<<<< HEAD
-(** val mpc_solve : bool -> nat -> nat -> raw list -> outcome0 **)
-=======
 (** val mpc_solve : bool -> nat -> nat -> raw list -> outcome **)
->>>>>>> main
 
 let mpc_solve upper_excl0 lb nedges0 sts =
   let (r0, n0) =
@@ -4113,11 +2704,7 @@ let mpc_solve upper_excl0 lb nedges0 sts =
   in
   { so_res = r0; used = n0; aux = O; lbk = lb }
 
-<<<<<<< HEAD
-(** val mpcc_solve : bool -> nat -> nat -> raw list -> outcome0 **)
-=======
 (** val mpcc_solve : bool -> nat -> nat -> raw list -> outcome **)
->>>>>>> main
 
 let mpcc_solve upper_excl0 lb nedges0 sts =
   let (r0, n0) =
@@ -4200,11 +2787,7 @@ let rec npo_loop p ks sts prev n0 =
                  then (NotSolved, (S n0))
                  else npo_loop p ks' sts' prev (S n0))
 
-<<<<<<< HEAD
-(** val npo_solve : npo_params -> raw list -> outcome0 **)
-=======
 (** val npo_solve : npo_params -> raw list -> outcome **)
->>>>>>> main
 
 let npo_solve p sts =
   let (r0, n0) = npo_loop p (krange p.kstart (add p.kmax (S O))) sts None O in
@@ -4226,22 +2809,14 @@ let run_kmodel ext objfill ops =
   let c = { external0 = ext; obj_fills_cache = objfill } in
   ((snd (kruns c (kinit c) ops)), (kinvocations c ops))
 
-<<<<<<< HEAD
-(** val run_mgs : bool -> nat -> nat -> raw list -> outcome0 **)
-=======
 (** val run_mgs : bool -> nat -> nat -> raw list -> outcome **)
->>>>>>> main
 
 let run_mgs =
   mgs_solve
 
 (** val run_mfd :
     bool -> bool -> bool -> nat -> nat -> bool -> nat -> bool -> nat -> bool
-<<<<<<< HEAD
-    list -> raw list -> outcome0 **)
-=======
     list -> raw list -> outcome **)
->>>>>>> main
 
 let run_mfd skips exits excl lb1 ne umgs nw gu gw gr sts =
   mfd_solve skips exits { lb0 = lb1; upper_excl = excl; nedges = ne;
@@ -4250,42 +2825,26 @@ let run_mfd skips exits excl lb1 ne umgs nw gu gw gr sts =
 
 (** val run_mfdc :
     bool -> bool -> nat -> nat -> bool -> nat -> bool -> nat -> bool list ->
-<<<<<<< HEAD
-    raw list -> outcome0 **)
-=======
     raw list -> outcome **)
->>>>>>> main
 
 let run_mfdc skips excl lb1 ne umgs nw gu gw ov sts =
   mfdc_solve skips { lb0 = lb1; upper_excl = excl; nedges = ne; use_mgs =
     umgs; nweights = nw; guessed = gu; gw_paths = gw; greedy = never; over =
     (of_list ov) } sts
 
-<<<<<<< HEAD
-(** val run_mpc : bool -> nat -> nat -> raw list -> outcome0 **)
-=======
 (** val run_mpc : bool -> nat -> nat -> raw list -> outcome **)
->>>>>>> main
 
 let run_mpc =
   mpc_solve
 
-<<<<<<< HEAD
-(** val run_mpcc : bool -> nat -> nat -> raw list -> outcome0 **)
-=======
 (** val run_mpcc : bool -> nat -> nat -> raw list -> outcome **)
->>>>>>> main
 
 let run_mpcc =
   mpcc_solve
 
 (** val run_npo :
     nat -> nat -> bool -> q option -> q option -> bool list -> q list -> bool
-<<<<<<< HEAD
-    list -> raw list -> outcome0 **)
-=======
     list -> raw list -> outcome **)
->>>>>>> main
 
 let run_npo ks km ff da dr ext obj0 ov sts =
   npo_solve { kstart = ks; kmax = km; first_feasible = ff; delta_abs = da;
@@ -4304,24 +2863,14 @@ type op =
 | QueueLb of nat * q
 | Optimize
 
-<<<<<<< HEAD
-(** val upd0 : wcol list -> nat -> (wcol -> wcol) -> wcol list **)
-
-let rec upd0 cs i f =
-=======
 (** val upd : wcol list -> nat -> (wcol -> wcol) -> wcol list **)
 
 let rec upd cs i f =
->>>>>>> main
   match cs with
   | [] -> []
   | c :: r0 -> (match i with
                 | O -> (f c) :: r0
-<<<<<<< HEAD
-                | S j -> c :: (upd0 r0 j f))
-=======
                 | S j -> c :: (upd r0 j f))
->>>>>>> main
 
 (** val fixc : q -> wcol -> wcol **)
 
@@ -4337,13 +2886,8 @@ let raisec v c =
     wcol list -> (nat * q) list -> (nat * q) list -> wcol list **)
 
 let apply_pending cs fixes lbs =
-<<<<<<< HEAD
-  fold_left (fun cs0 iv -> upd0 cs0 (fst iv) (raisec (snd iv))) lbs
-    (fold_left (fun cs0 iv -> upd0 cs0 (fst iv) (fixc (snd iv))) fixes cs)
-=======
   fold_left (fun cs0 iv -> upd cs0 (fst iv) (raisec (snd iv))) lbs
     (fold_left (fun cs0 iv -> upd cs0 (fst iv) (fixc (snd iv))) fixes cs)
->>>>>>> main
 
 (** val setcost : q -> wcol -> wcol **)
 
@@ -4358,11 +2902,7 @@ let addcost q0 c =
 (** val set_costs : wcol list -> (nat * q) list -> wcol list **)
 
 let set_costs cs terms =
-<<<<<<< HEAD
-  fold_left (fun cs0 iv -> upd0 cs0 (fst iv) (addcost (snd iv))) terms
-=======
   fold_left (fun cs0 iv -> upd cs0 (fst iv) (addcost (snd iv))) terms
->>>>>>> main
     (map (setcost { qnum = Z0; qden = XH }) cs)
 
 (** val step : wst -> op -> wst **)
